@@ -566,8 +566,9 @@ class FiltersSet:
         for f in self.filters:
             if f["name"] != name:
                 continue
-            ifcontrol.addchild(f["content"])
-            f["content"] = ifcontrol
+            if not self.__isdisabled(f["content"]):
+                ifcontrol.addchild(f["content"])
+                f["content"] = ifcontrol
             f["enabled"] = False
             return True
         return False
